@@ -213,7 +213,13 @@ def component_post_render(
 
             # Allow to optionally override/modify the rendered content from outside
             component_html = "".join(parent_parts)
-            on_component_rendered = on_component_rendered_callbacks[curr_item.parent_id]
+            on_component_rendered = on_component_rendered_callbacks.get(curr_item.parent_id)
+            if on_component_rendered is None:
+                # The component was created under the context of a component that belongs to a different
+                # render root (e.g. slot default content rendered inside a fill of another root),
+                # so its callback was registered with that root.
+                comp_ctx = component_context_cache[curr_item.parent_id]
+                on_component_rendered = comp_ctx.post_render_callbacks[curr_item.parent_id]
             component_html = on_component_rendered(component_html)  # type: ignore[arg-type]
 
             # Add the component's HTML to parent's parent's HTML parts
